@@ -126,8 +126,8 @@ impl<'a> SdesChunk<'a> {
 
     /// The length of this chunk
     pub fn length(&self) -> usize {
-        let len = Self::MIN_LEN + self.items.iter().fold(0, |acc, item| acc + item.length());
-        pad_to_4bytes(len)
+        let len = Self::MIN_LEN + self.items.iter().fold(0, |acc, item| acc + 2 + item.length());
+        pad_to_4bytes(len + 1)
     }
 
     /// The items in this chunk
